@@ -1,3 +1,6 @@
+pub mod c03;
+pub mod c04;
+pub mod c05;
 pub mod c07;
 pub mod c08;
 pub mod c09;
@@ -13,6 +16,7 @@ pub mod c18;
 pub mod c20;
 pub mod common;
 pub mod iff;
+pub mod structs;
 
 use crate::mon::Check;
 
@@ -28,6 +32,9 @@ pub fn std_assumptions() -> Vec<String> {
 
 pub fn get(id: &str) -> Option<Box<dyn Check>> {
     match id {
+        "C03" => Some(Box::new(c03::C03)),
+        "C04" => Some(Box::new(c04::C04)),
+        "C05" => Some(Box::new(c05::C05)),
         "C07" => Some(Box::new(c07::C07)),
         "C08" => Some(Box::new(c08::C08)),
         "C09" => Some(Box::new(c09::C09)),
